@@ -94,8 +94,19 @@ def run_property(pid, tier, seed, replay, *, make_cases, judge, corr_filter=None
     n_ops = 0
     distinct = set()
     dist = {}
-    for prof in profiles:
-        run = LevelRun(cases, mode, prof)
+    passes = [(prof, mode, cases) for prof in profiles]
+    if not replay:
+        # the same histories with a client that KEEPS the handles the library returns (mode K), and - in the quick tier, which
+        # otherwise runs the debug build only - a sample under the release build (debug_assert!, overflow checks differ)
+        passes.append(("debug", mode + "K", cases[::4]))
+        if "release" not in profiles and pid in ("C01", "C15"):
+            build_harness("release")
+            passes.append(("release", mode, cases[:250]))
+    elif r.get("run_mode"):
+        passes = [(str(r.get("profile", "debug")).split("/")[0], r["run_mode"], cases)]
+    for prof, pmode, pcases in passes:
+        run = LevelRun(pcases, pmode, prof)
+        prof = prof if pmode == mode else "%s/%s" % (prof, pmode)
         for rec in run.recs:
             cid, price, ops = run.cases[rec["case"]]
             n_ops += len(rec["ops"])
@@ -124,8 +135,8 @@ def run_property(pid, tier, seed, replay, *, make_cases, judge, corr_filter=None
                 else:
                     judge_bad.append((rec, price, ops, i, text, prof))
                 break    # first failure of a case is enough
-        if len(run.recs) != len(cases):
-            ck.oblige("harness ran all cases (%s)" % prof, False, "%d of %d" % (len(run.recs), len(cases)))
+        if len(run.recs) != len(pcases):
+            ck.oblige("harness ran all cases (%s)" % prof, False, "%d of %d" % (len(run.recs), len(pcases)))
 
     if iface_bad and not judge_bad and mode.startswith("O") and not replay:
         # the implementation's per-order answers break the interface the theorems assume.  In oracle mode model and judge
@@ -204,13 +215,16 @@ def run_property(pid, tier, seed, replay, *, make_cases, judge, corr_filter=None
         try:
             if rec is not None and len(ops) > 1:
                 md = ("C" + mode[1:]) if "[judged against the model's own per-order function" in text else mode
+                if "/" in str(prof):
+                    md = str(prof).split("/")[1]
                 small = lvl.shrink(ops, lambda o: fails(price, o, md))
         except Exception:
             small = ops
-        run = LevelRun([("s", price, small)], ("C" + mode[1:]) if "[judged against the model's own per-order function" in text else mode, "debug")
+        run = LevelRun([("s", price, small)], md if rec is not None and len(ops) > 1 else mode, "debug")
         trace = [dict(op=o["op"], impl=o["I"], model=o["M"]) for o in run.recs[0]["ops"]] if run.recs else []
         ck.violation("fail", dict(kind="level-history", price=price, ops=small, failing_op=i, why=text, profile=prof,
                                   judge_mode=("C" if "[judged against the model's own per-order function" in text else mode[:1]),
+                                  run_mode=(str(prof).split("/")[1] if "/" in str(prof) else None),
                                   original_length=len(ops), trace=trace, failures=len(judge_bad)))
     elif corr_bad or iface_bad or not pr["ok"]:
         first = None
@@ -264,10 +278,59 @@ def histories(rng, n, lo=5, hi=40, n_long=None, **kw):
         ops.append("ADD " + gen.order("I", oid="u3", price=100, side="B", ts=6000, tif="GTC", vis=2, hid=5))
         ops.append("MATCH 3 u7001")
         out.append((100, ops))
+    out += deep_histories(rng, kw.pop("n_deep", max(6, n // 150)), rebuild=kw.get("rebuilds", True))
     n_long = max(20, n // 40) if n_long is None else n_long
     for i in range(n_long):
         g = lvl.HistGen(rng, **kw)
         out.append((g.price, g.history(rng.randint(150, 450))))
+    return out
+
+
+def deep_histories(rng, n, rebuild=None, fork=False, sizes=None, mixed=None):
+    """Levels that are DEEP (33 .. 300 resting orders, strictly increasing timestamps, fresh ids: no known-finding taint):
+    per-sweep chunking, batch loading on restore and size-gated fast paths only exist beyond round numbers of resting orders.
+    Uniform books of Standard orders of 10 with takers of 10*k+5 (the partial fill lands exactly on the k-th order, k around
+    32 / 64 / 128 / 256) alternate with mixed books (all seven types, icebergs and reserves with hidden quantity).
+    rebuild: None | True (REBUILD through every path after the first sweep); fork: FORK before the sweeps (C11)."""
+    out = []
+    for i in range(n):
+        N = rng.choice(sizes or [33, 34, 40, 65, 66, 70, 129, 130, 257, 258, 300])
+        uniform = (i % 2 == 0) if mixed is None else (not mixed)
+        ops, ts = [], 100
+        for j in range(N):
+            ts += rng.randint(1, 3)
+            oid = ("u%d" if rng.random() < 0.8 else "l%d") % (j + 1)
+            if uniform:
+                ops.append("ADD " + gen.order("S", oid=oid, price=100, side="S", ts=ts, tif="GTC", vis=10))
+            else:
+                k = rng.choice(gen.KINDS)
+                ops.append("ADD " + gen.order(k, oid=oid, price=100, side=rng.choice("BS"), ts=ts, tif=rng.choice(gen.TIFS),
+                                              vis=rng.randint(1, 12), hid=rng.choice([0, 3, 17]) if k in "IR" else 0,
+                                              thr=rng.choice([0, 1, 5]), amt=rng.choice([None, 0, 2, 10, 80]), auto=rng.random() < 0.7))
+        via = lvl.VIAS[i % len(lvl.VIAS)]
+        if fork:
+            ops.append("FORK " + via)
+        if rebuild and i % 2 == 1:
+            ops.append("REBUILD " + lvl.VIAS[(i // 2) % len(lvl.VIAS)])      # the full-depth level through a rebuild path
+        ks = [k for k in (4, 31, 32, 33, 63, 64, 65, 127, 128, 129, 255, 256, 257) if k < N]
+        first = True
+        for _ in range(rng.randint(2, 4)):
+            k = rng.choice(ks[-4:] if first else ks)
+            ops.append("MATCH %d u%d" % ((10 * k + 5) if uniform else rng.choice([7, 60, 5 * k, 9 * k]), 7300 + len(ops)))
+            if first and rebuild:
+                ops.append("REBUILD " + via)
+            first = False
+            x = rng.random()
+            if x < 0.3:
+                ops.append("UPD UQ:%s:%d" % (("u%d" % rng.randint(1, N)), rng.choice([4, 10, 15])))
+            elif x < 0.45:
+                ops.append("UPD C:u%d" % rng.randint(1, N))
+            elif x < 0.6:
+                ts += 1
+                ops.append("ADD " + gen.order("S", oid="u%d" % (N + 1 + len(ops)), price=100, side="S", ts=ts, tif="GTC", vis=10))
+            ops.append("MATCH %d u%d" % (rng.choice([10, 24, 50]), 7400 + len(ops)))
+        ops.append("MATCH %d u7999" % (1 << 40))
+        out.append((100, ops))
     return out
 
 
